@@ -214,6 +214,8 @@ def run():
     print(f"[*] Checking for TLS traffic on these ports: {server_ports}")
 
     for ts, buf in pcap_reader:
+        # dpkt yields decimal.Decimal timestamps for pcap files with nanosecond resolution
+        ts = float(ts)
         packet = Packet(buf, ts)
 
         if ts == -1:
